@@ -1203,14 +1203,27 @@ Proof.
 Qed.
 End SaveTypes.
 
+(** the Default rule admits one content type per extension, so two parts can never clash *)
+Lemma in_table_unique tbl e a b : in_table tbl e a = true -> in_table tbl e b = true -> a = b.
+Proof.
+  unfold in_table. destruct (ext_types tbl e) as [|t [|t2 l]]; try discriminate.
+  intros Ha Hb. apply str_eqb_eq in Ha, Hb. congruence.
+Qed.
+
+Lemma no_default_clash_always {blob} (E : env blob) p : no_default_clash E p.
+Proof.
+  intros x y cx cy _ _ _ _ _ _ He Tx Ty. rewrite He in Tx. eapply in_table_unique; eauto.
+Qed.
+
 Lemma c01_payload_type {blob} (E : env blob) p :
-  wf E p -> codec_ok E -> env_ok E -> no_default_clash E p ->
+  wf E p -> codec_ok E -> env_ok E ->
   exists k, load E p = Ok k /\
     forall q ct b, reachable E p q -> q <> root -> ct_in E p q = Ok ct -> lookup q p = Some b ->
       ct_in E (save E k) q = Ok ct /\
       lookup q (save E k) = (if is_xml_ct E ct then reser E b else Some b).
 Proof.
-  intros Hwf Hcodec Henv Hnc. destruct (load_wf E p Hwf) as (cb & c & Hcb & Hc & Hl).
+  intros Hwf Hcodec Henv. pose proof (no_default_clash_always E p) as Hnc.
+  destruct (load_wf E p Hwf) as (cb & c & Hcb & Hc & Hl).
   exists (spec_pkg E p c). split; auto. intros q ct b Hr Hn Hct Hb.
   rewrite (ct_in_c E p cb c Hcb Hc) in Hct. split.
   - unfold ct_in, save. cbn [lookup]. rewrite str_eqb_refl.
@@ -1805,10 +1818,10 @@ Qed.
 End Idem.
 
 Lemma c01_idem {blob} (E : env blob) p :
-  wf E p -> codec_ok E -> env_ok E -> no_default_clash E p ->
+  wf E p -> codec_ok E -> env_ok E ->
   exists k k2, load E p = Ok k /\ load E (save E k) = Ok k2 /\ same_package (save E k2) (save E k).
 Proof.
-  intros Hwf Hcodec Henv Hnc. destruct (load_wf E p Hwf) as (cb & c & Hcb & Hc & Hl).
+  intros Hwf Hcodec Henv. pose proof (no_default_clash_always E p) as Hnc. destruct (load_wf E p Hwf) as (cb & c & Hcb & Hc & Hl).
   pose proof (wf_s1 E p Hwf cb c Hcb Hc Hcodec Henv Hnc) as Hwf1.
   destruct (load_wf E _ Hwf1) as (cb1 & c1 & Hcb1 & Hc1 & Hl1).
   exists (spec_pkg E p c), (spec_pkg E (save E (spec_pkg E p c)) c1). split; auto. split; auto.
@@ -2562,19 +2575,19 @@ Proof. vm_compute. reflexivity. Qed.
 Lemma ex_clash_reach_a : reachable wenv ex_clash n_a_bin.
 Proof. eapply r1; [apply r0|]. vm_compute. auto. Qed.
 
-Lemma payload_type_refuted :
-  exists (p : phys wblob) k q ct ct',
-    wf wenv p /\ codec_ok wenv /\ env_ok wenv /\ load wenv p = Ok k /\
-    reachable wenv p q /\ q <> root /\
-    ct_in wenv p q = Ok ct /\ ct_in wenv (save wenv k) q = Ok ct' /\ ct <> ct'.
-Proof.
-  destruct (load wenv ex_clash) as [k|e] eqn:El; [|vm_compute in El; discriminate].
-  exists ex_clash, k, n_a_bin, ct_pml_ps, ct_sml_ps.
-  split; [apply wfb_sound, ex_clash_wfb|]. split; [apply wenv_codec_ok|]. split; [apply wenv_env_ok|].
-  split; [exact El|]. split; [apply ex_clash_reach_a|]. split; [discriminate|].
-  split; [vm_compute; reflexivity|]. split; [|discriminate].
-  vm_compute in El. inversion El; subst k. vm_compute. reflexivity.
-Qed.
+(* regression on the former counter-example: two .bin parts typed as PresentationML and
+   SpreadsheetML printer settings both keep their type, each through an Override; the
+   table lists three types for bin, so no Default is written for it *)
+Lemma ex_clash_regression :
+  match load wenv ex_clash with
+  | Ok k =>
+      content_types_item wenv (iter_parts k)
+      = (gen_init_defaults, [(n_a_bin, ct_pml_ps); (n_b_bin, ct_sml_ps)])
+      /\ ct_in wenv (save wenv k) n_a_bin = Ok ct_pml_ps
+      /\ ct_in wenv (save wenv k) n_b_bin = Ok ct_sml_ps
+  | Err _ => False
+  end.
+Proof. vm_compute. repeat split. Qed.
 
 (* an irregular package: a dangling core-properties relationship, a dangling slide
    relationship whose absent target still has a rels item (leading to an image no loaded
